@@ -17,6 +17,9 @@ import (
 	"github.com/obolnetwork/charon/testutil/beaconmock"
 )
 
+// rigSubs is the number of subscribers the component rigs register (2 unless a layout probe says otherwise).
+var rigSubs = 2
+
 // contain runs f and turns a panic into a skip note.
 func contain(what string, f func()) {
 	defer func() {
@@ -36,7 +39,7 @@ type fetchRig struct {
 	defSet  core.DutyDefinitionSet
 	bnRet   []any // what the eth2 client returned to the fetcher
 	queried []any // what the registered query functions (aggsigdb, dutydb) returned to the fetcher
-	outs    [2][]core.UnsignedDataSet
+	outs    [][]core.UnsignedDataSet
 	pkA     core.PubKey
 	pkB     core.PubKey
 	bm      beaconmock.Mock
@@ -171,7 +174,8 @@ func newFetchRig(t *testing.T, bmock beaconmock.Mock, k UKind, v2 bool) (*fetchR
 	}
 	r.f = f
 	r.bm = bmock
-	for i := 0; i < 2; i++ {
+	r.outs = make([][]core.UnsignedDataSet, rigSubs)
+	for i := 0; i < rigSubs; i++ {
 		f.Subscribe(func(_ context.Context, _ core.Duty, set core.UnsignedDataSet) error {
 			r.outs[i] = append(r.outs[i], set)
 			return nil
@@ -230,9 +234,11 @@ func probeFetcher(t *testing.T, uks []UKind) {
 					skip("fetcher %s: Fetch fails: %v", k.Name, err)
 					return
 				}
-				if len(r.outs[0]) != 1 || len(r.outs[1]) != 1 || len(r.outs[0][0]) == 0 {
-					skip("fetcher %s: subscribers called %d/%d times", k.Name, len(r.outs[0]), len(r.outs[1]))
-					return
+				for i := range r.outs {
+					if len(r.outs[i]) != 1 || len(r.outs[i][0]) == 0 {
+						skip("fetcher %s: subscriber %d of %d called %d times", k.Name, i+1, len(r.outs), len(r.outs[i]))
+						return
+					}
 				}
 				a, held := pick(r)
 				observe(path, k.Name, shape, a, held, nil)
@@ -268,5 +274,27 @@ func probeFetcher(t *testing.T, uks []UKind) {
 		run("fetcher.Fetch(query results)>subscriber", "direct", false, func(r *fetchRig) (Named, []Named) {
 			return Named{"query results given to the fetcher", r.queried}, subs(r)
 		})
+		// every subscriber position
+		for _, lay := range subLayouts {
+			n, pos := lay[0], lay[1]
+			for _, early := range []bool{false, true} {
+				via := "fetcher.Fetch"
+				if early {
+					via = "fetcher.FetchOnly+Fetch"
+				}
+				rigSubs = n
+				run(via+">subscriber["+posName(n, pos)+"]|everybody else", "sibling", early, func(r *fetchRig) (Named, []Named) {
+					held := []Named{{"values returned by the eth2 client", r.bnRet}, {"Fetch duty definition set argument", r.defSet}, {"query results given to the fetcher", r.queried}}
+					for i := range r.outs {
+						if i != pos {
+							held = append(held, Named{fmt.Sprintf("subscriber %d set", i+1), r.outs[i][0]})
+						}
+					}
+
+					return Named{"subscriber set (" + posName(n, pos) + ")", r.outs[pos][0]}, held
+				})
+				rigSubs = 2
+			}
+		}
 	}
 }
